@@ -192,6 +192,12 @@ func (h *HTTPSim) deliverFault(w http.ResponseWriter, f *Fault, ord int, raw, cl
 		w.WriteHeader(403)
 		io.WriteString(w, "forbidden")
 		return true
+	case "http-503-long":
+		// Error page of a load balancer: one line of 70 000 bytes.
+		h.event(ord, raw, class, "fault:"+f.Kind, f.Kind)
+		w.WriteHeader(503)
+		io.WriteString(w, "<html><body><h1>503 Service Unavailable</h1><!-- "+strings.Repeat("x", 70000)+" --></body></html>")
+		return true
 	case "http-403-empty", "http-502-empty":
 		// Error status without any body, as a proxy or gateway in
 		// front of the device answers.
